@@ -175,6 +175,40 @@ pub fn run(args: &Args) {
             let nt = matches!(&elems, Ok(Value::Array(a)) if !a.is_empty()) && r != "@";
             ctx!(law).check(&format!("{}.[{}]", base_text, r), &expected, nt);
         }
+        // 5b. bare projections (identity right-hand side): the elements themselves, nulls dropped
+        if let Ok(lv) = &l_out {
+            let nonnull = |xs: Vec<Value>| Value::Array(xs.into_iter().filter(|e| !e.is_null()).collect());
+            let (e_wild, e_flat): (Out, Out) = match lv {
+                Value::Array(a) => {
+                    let mut flat = vec![];
+                    for e in a {
+                        match e {
+                            Value::Array(inner) => flat.extend(inner.iter().cloned()),
+                            other => flat.push(other.clone()),
+                        }
+                    }
+                    (Ok(nonnull(a.clone())), Ok(nonnull(flat)))
+                }
+                _ => (Ok(Value::Null), Ok(Value::Null)),
+            };
+            let nt = matches!(lv, Value::Array(a) if a.iter().any(|e| e.is_null()) || !a.is_empty());
+            ctx!("bare-list-wildcard").check(&format!("({})[*]", l), &e_wild, nt);
+            ctx!("bare-flatten").check(&format!("({})[]", l), &e_flat, nt);
+            let e_obj: Out = match lv {
+                Value::Object(m) => Ok(nonnull(m.values().cloned().collect())),
+                _ => Ok(Value::Null),
+            };
+            ctx!("bare-object-wildcard").check(&format!("({}).*", l), &e_obj, matches!(lv, Value::Object(m) if !m.is_empty()));
+            let (a, b, c) = (rng.range(-3, 3), rng.range(-3, 4), [1i64, -1, 2][rng.below(3)]);
+            let e_slice: Out = match lv {
+                Value::Array(arr) => {
+                    let idx = refimpl::eval::slice_indices(arr.len() as i128, Some(a as i128), Some(b as i128), c as i128);
+                    Ok(nonnull(idx.into_iter().map(|i| arr[i].clone()).collect()))
+                }
+                _ => Ok(Value::Null),
+            };
+            ctx!("bare-slice").check(&format!("({})[{}:{}:{}]", l, a, b, c), &e_slice, nt);
+        }
         // 6. plain chains drop nulls and keep order
         if let Ok(Value::Array(a)) = &l_out {
             let key = match &sample_elem {
